@@ -207,11 +207,15 @@ def worker():
     from vf.progmodel import harness as H
     from vf.progmodel import run as RUN
 
-    for prog, ops, truth in tasks["programs"]:
+    for item in tasks["programs"]:
+        prog, ops, truth = item[:3]
+        scripts = {tuple(k): v for k, v in item[3]} if len(item) > 3 and item[3] else None
+        fuel = item[4] if len(item) > 4 else 0
         try:
             with RUN.Loaded(prog) as loaded:
                 errs = {k: (type(v).__name__ if v is not None else None) for k, v in loaded.errors.items()}
-                log, outs, _ = core.in_fresh_thread(lambda: RUN.execute(loaded, ops, {int(k): v for k, v in truth.items()}))
+                log, outs, _ = core.in_fresh_thread(lambda: RUN.execute(
+                    loaded, ops, {int(k): v for k, v in truth.items()}, scripts=scripts, fuel=fuel, event_budget=6000), stack_mb=256)
             out["programs"].append({"errors": errs, "log": [list(H.norm_event(e)) for e in log], "outs": [list(o[:2]) for o in outs]})
         except BaseException as ex:  # noqa
             out["programs"].append({"error": "%s: %s" % (type(ex).__name__, ex)})
@@ -274,7 +278,35 @@ def gen_programs(seed, n):
         out.extend(items)
 
     core.run_hypothesis(test, seed, n)
-    return directed_programs() + out
+
+    # call graphs of C10 (contracts and bodies that call contracted callables again), every contract enabled=True
+    from vf.props import c10
+
+    reentrant = []
+
+    @st.composite
+    def st_reentrant(draw):
+        case = draw(c10.st_case())
+        p = case["program"]
+        for f in list(p.get("funcs", [])) + [m for c in p.get("classes", []) for m in c.get("members", [])]:
+            for d in f.get("decos", []):
+                if d["t"] in ("require", "ensure", "snapshot"):
+                    d["enabled"] = True
+                    d.pop("made", None)
+        for c in p.get("classes", []):
+            for i in c.get("invs", []):
+                i["enabled"] = True
+        cids = D.all_cids(p)
+        codes = {int(k): v for k, v in case["codes"].items()}
+        masks = [(1 << len(cids)) - 1, draw(st.integers(0, (1 << len(cids)) - 1))] if cids else [0]
+        return [(p, case["ops"], D.truth_for(cids, codes, m), case["scripts"], case["fuel"]) for m in masks]
+
+    @given(st_reentrant())
+    def test2(items):
+        reentrant.extend(items)
+
+    core.run_hypothesis(test2, seed + 7, max(12, n))
+    return directed_programs() + out + reentrant
 
 
 def directed_programs():
@@ -319,7 +351,8 @@ def run(ctx, tier, seed, shard, nshards):
     all_cells = list(cells())
     programs = gen_programs(seed, 40 if tier == "quick" else 400)
     results = {}
-    payload = json.dumps({"cells": all_cells, "programs": [[p, o, {str(k): v for k, v in t.items()}] for p, o, t in programs]})
+    payload = json.dumps({"cells": all_cells, "programs": [[it[0], it[1], {str(k): v for k, v in it[2].items()}] + list(it[3:])
+                                                           for it in programs]})
     import concurrent.futures
 
     with concurrent.futures.ThreadPoolExecutor(max_workers=16) as ex:
@@ -370,8 +403,14 @@ def run(ctx, tier, seed, shard, nshards):
     ctx.extra["exhaustive_scope"] = "decorator x enabled x kind x interpreter x ICONTRACT_SLOW matrix (%d cells x %d workers)" % (len(all_cells), len(MODES) * len(SLOWS))
     # (2) programs across interpreter modes
     base = results[("normal", "unset", None)]["programs"]
-    for idx, (p, ops, truth) in enumerate(programs):
+    for idx, item in enumerate(programs):
+        p, ops, truth = item[:3]
+        scripts = {tuple(k): v for k, v in item[3]} if len(item) > 3 and item[3] else None
+        fuel = item[4] if len(item) > 4 else 0
         case = {"program": p, "ops": ops, "truth": {str(k): v for k, v in truth.items()}}
+        if scripts:
+            case["scripts"], case["fuel"] = item[3], fuel
+            ctx.count("programs_with_re-entrant_calls")
         falsy = any(v[0] in ("F", "0", "''", "[]", "None", "Fb", "Fl") for v in truth.values())
         ctx.case(["prog", p, ops, truth], falsy)
         b = base[idx]
@@ -390,7 +429,7 @@ def run(ctx, tier, seed, shard, nshards):
         # and against the reference
         try:
             model = REF.Model(p)
-            ref_log, ref_outs, _ = REF.run_ops(model, ops, truth)
+            ref_log, ref_outs, _ = REF.run_ops(model, ops, truth, scripts=scripts, fuel=fuel, event_budget=1200)
             real = [tuple(e) for e in b["log"]]
             ok = H.traces_match([H.norm_event(e) for e in ref_log], real) or any(v for v in b["errors"].values())
         except (REF.RefInconsistency, REF.DefError, KeyError):
@@ -416,7 +455,8 @@ def replay(ctx, case):
             ctx.fail("replayed-cell", case, "cell %r: expected enabled=%s, observed %r" % (case, exp, obs))
         ctx.evaluations += 1
         return
-    payload = json.dumps({"cells": [], "programs": [[case["program"], case["ops"], case["truth"]]]})
+    payload = json.dumps({"cells": [], "programs": [[case["program"], case["ops"], case["truth"]] + (
+        [case["scripts"], case.get("fuel", 0)] if case.get("scripts") else [])]})
     outs = [spawn(flags, None, payload)["programs"][0] for _, flags in MODES]
     if outs[0] != outs[1] or outs[0] != outs[2]:
         ctx.fail("mode-dependent|replay", case, "behaviour differs across interpreter modes: %r" % (outs,))
